@@ -471,7 +471,7 @@ func borderImageOutset(computer *ComputedStyle, _ pr.KnownProp, _value pr.CssPro
 		if value.Unit == pr.Scalar {
 			values[i] = value
 		} else {
-			values[i] = length_(computer, value, 0, false)
+			values[i] = length_(computer, value, -1, false)
 		}
 	}
 
@@ -787,7 +787,7 @@ func computeTrackBreadth(computer *ComputedStyle, value pr.DimOrS) pr.DimOrS {
 		if value.Unit == pr.Fr {
 			return value
 		} else {
-			return length_(computer, value, 0, false)
+			return length_(computer, value, -1, false)
 		}
 	}
 }
